@@ -4,6 +4,7 @@ go 1.25.0
 
 require (
 	go.starlark.net v0.0.0
+	google.golang.org/protobuf v1.36.11
 	pgregory.net/rapid v1.3.0
 )
 
